@@ -38,6 +38,7 @@ type ncbiLayout struct {
 	lead, tail bool
 	maxSep     int
 	tabs       bool
+	long       int // if > 0: one separator / comment of about this many bytes (lines longer than the I/O buffers)
 }
 
 func labelKey(b byte) byte {
@@ -124,6 +125,13 @@ func genNCBILayout(r *rand.Rand) ncbiLayout {
 		lead: r.IntN(2) == 0, tail: r.IntN(2) == 0, maxSep: 1 + r.IntN(5), tabs: r.IntN(2) == 0}
 }
 
+// genNCBILongLayout: a layout with one very long line (padding or comment).
+func genNCBILongLayout(r *rand.Rand) ncbiLayout {
+	l := genNCBILayout(r)
+	l.long = longSize(r)
+	return l
+}
+
 func (l ncbiLayout) String() string {
 	type plain ncbiLayout
 	return fmt.Sprintf("%+v", plain(l))
@@ -179,6 +187,12 @@ func renderTokens(r *rand.Rand, lines [][]string, l ncbiLayout) []byte {
 		r.Shuffle(len(rest), func(i, j int) { rest[i], rest[j] = rest[j], rest[i] })
 	}
 	var buf bytes.Buffer
+	longLine := -1
+	longKind := 0
+	if l.long > 0 {
+		longLine = r.IntN(len(lines))
+		longKind = r.IntN(3) // 0: padding between tokens, 1: trailing padding, 2: comment line before
+	}
 	noise := func() {
 		for r.IntN(100) < l.comments {
 			buf.WriteString("#" + string(randBytesExcl(r, r.IntN(20), noCRLF)) + eol)
@@ -190,6 +204,9 @@ func renderTokens(r *rand.Rand, lines [][]string, l ncbiLayout) []byte {
 	for oi, li := range order {
 		noise()
 		toks := lines[li]
+		if li == longLine && longKind == 2 {
+			buf.WriteString("#" + string(randBytesExcl(r, l.long, noCRLF)) + eol)
+		}
 		var sb strings.Builder
 		if l.lead && (li == 0 || r.IntN(2) == 0) && len(toks) > 0 {
 			sb.WriteString(l.sep(r))
@@ -197,11 +214,17 @@ func renderTokens(r *rand.Rand, lines [][]string, l ncbiLayout) []byte {
 		for i, tok := range toks {
 			if i > 0 {
 				sb.WriteString(l.sep(r))
+				if li == longLine && longKind == 0 && i == 1+len(toks)/2-1 {
+					sb.WriteString(strings.Repeat(" ", l.long))
+				}
 			}
 			sb.WriteString(tok)
 		}
 		if l.tail && r.IntN(2) == 0 && len(toks) > 0 {
 			sb.WriteString(l.sep(r))
+		}
+		if li == longLine && longKind <= 1 && len(toks) > 0 && (longKind == 1 || len(toks) == 1) {
+			sb.WriteString(strings.Repeat(pick(r, []string{" ", "\t"}), l.long))
 		}
 		buf.WriteString(sb.String())
 		if oi < len(order)-1 || !l.noFinal {
@@ -278,9 +301,13 @@ func c20Read(c *Ctx) {
 			k.Input("table", func() string { return matrixString(truth) })
 			for j := 0; j < 6; j++ {
 				l := genNCBILayout(r)
+				if j == 5 && k.Idx%8 == 0 {
+					l = genNCBILongLayout(r)
+					k.Count("long_line_layouts", 1)
+				}
 				text := t.render(r, l)
 				k.Input("layout", l)
-				k.Input("text", text)
+				k.Input("text", func() string { return describeText(text) })
 				m, err := smtext.ReadNCBI(bytes.NewReader(text))
 				if err != nil {
 					k.Failf("readncbi", "ReadNCBI failed on a valid table: %v", err)
